@@ -1,5 +1,6 @@
 """Witness search (DESIGN 3.8): upgrade a Verus failure (no model) to a concrete failing input by running a native
 oracle test against the real code.  Only ever adds information to a report."""
+import fcntl
 import os
 import re
 import shutil
@@ -57,15 +58,19 @@ def search(repo, tests, seed=0, timeout=900):
         subprocess.check_call(["rsync", "-a", "--no-times", "--exclude", "target", "--exclude", ".git", repo.rstrip("/") + "/", src + "/"])
         shutil.copy(os.path.join(VERIF, "replay", "witness.rs"), os.path.join(src, "tests", "vx_witness.rs"))
         env = dict(os.environ, CARGO_NET_OFFLINE="true", CARGO_TARGET_DIR=os.path.join(CACHE, "native-target"), VERIF_SEED=str(seed))
-        for t in tests:
-            try:
-                p = subprocess.run(["cargo", "test", "--offline", "--release", "--test", "vx_witness", t, "--", "--exact", "--nocapture"],
-                                   cwd=src, env=env, capture_output=True, text=True, timeout=timeout)
-            except subprocess.TimeoutExpired:
-                continue
-            m = re.search(r"WITNESS [^\n]*", p.stdout + p.stderr)
-            if m and re.search(r"test %s \.\.\. FAILED" % re.escape(t), p.stdout + p.stderr):
-                out[t] = m.group(0)
+        # the cached target dir holds one test binary per relative path: build and run under a lock, so that a concurrent
+        # check of another tree (self-test with VERIF_REPO) cannot swap the binary between build and run
+        with open(os.path.join(CACHE, "native-target.lock"), "w") as lk:
+            fcntl.flock(lk, fcntl.LOCK_EX)
+            for t in tests:
+                try:
+                    p = subprocess.run(["cargo", "test", "--offline", "--release", "--test", "vx_witness", t, "--", "--exact", "--nocapture"],
+                                       cwd=src, env=env, capture_output=True, text=True, timeout=timeout)
+                except subprocess.TimeoutExpired:
+                    continue
+                m = re.search(r"WITNESS [^\n]*", p.stdout + p.stderr)
+                if m and re.search(r"test %s \.\.\. FAILED" % re.escape(t), p.stdout + p.stderr):
+                    out[t] = m.group(0)
     except Exception:
         pass
     finally:
